@@ -6,6 +6,7 @@ import PowHsm.Admin.Commands
 import PowHsm.Proofs.Monad
 import PowHsm.Proofs.Admin
 import PowHsm.Proofs.AdminServe
+import PowHsm.Proofs.AdminChange
 namespace PowHsm
 namespace Props.C18
 open Admin Ledger Generated M
@@ -120,6 +121,26 @@ theorem unlock_pin_only_after_checks (o : Options) (exit noExec : Bool) (w : Wor
   simp only at h1 h2 h3
   subst h1 h2 h3
   exact ⟨w0, e1, w1, hc⟩
+
+/-- **a PIN change sends only a policy-compliant PIN unless any-PIN was explicitly allowed**: if the
+    change-PIN command (Ledger CHANGE_PIN 0x08, SGX change-password 0xA5) is sent at any point of
+    `do_changepin` — for every device behaviour and every operator script — then it is sent by the
+    new-PIN step for a PIN that satisfies the policy (`pin_policy`: 8 alphanumerics with a letter;
+    alphanumerics only with any-PIN); nothing before that step, the unlock included, sends it
+    (`Proofs/AdminChange.lean`) -/
+theorem changepin_only_policy_pin (o : Options) (w : World)
+    (h : (doChangePin o w).evs.all notChange = false) :
+    ∃ np w2, pinValid np o.anyPin = true ∧ (platNewPin np w2).evs.all notChange = false :=
+  Admin.changepin_only_policy_pin o w h
+
+/-- non-vacuity: on SGX, with no unlock, a device in signer mode and a compliant new PIN the command is
+    sent, carrying that PIN -/
+example :
+    let o : Options := { pin := none, newPin := some "abcd1234", anyPin := false, noUnlock := true, noExec := false }
+    let w : World := { script := [.data [0x80, 3], .data [0x80, 0xA5, 1]], platform := .sgx }
+    (doChangePin o w).evs.all notChange = false ∧
+    apdus (doChangePin o w).evs = [[0x80, 0x43], [0x80, 0xA5, 0, 0x61, 0x62, 0x63, 0x64, 0x31, 0x32, 0x33, 0x34]] := by
+  decide +kernel
 
 /-- **when the preconditions hold the operation is carried out** (onboarding, Ledger): against a
     device in bootloader mode that echoes correctly and is not yet onboarded, with an operator who
